@@ -173,7 +173,12 @@ def run(chk):
     km = kernels.Matern32(jnp.asarray(1.0))
     Kb = np.asarray(km(jnp.asarray(X1), jnp.asarray(X2)))
     for name, kk, want in [("k + c", km + 2.0, Kb + 2.0), ("c + k", 2.0 + km, Kb + 2.0), ("k * c", km * 2.0, Kb * 2.0), ("c * k", 2.0 * km, Kb * 2.0),
-                           ("sum([k,k,k])", sum([km, km, km]), 3 * Kb), ("sum([k])", sum([km]), Kb)]:
+                           ("sum([k,k,k])", sum([km, km, km]), 3 * Kb), ("sum([k])", sum([km]), Kb),
+                           # scalars of every Python / numpy type, on the left in particular (sum() start values are not special unless 0)
+                           ("1 + k", 1 + km, Kb + 1), ("-3 + k", -3 + km, Kb - 3), ("k + 2", km + 2, Kb + 2), ("np.int64(2) + k", np.int64(2) + km, Kb + 2),
+                           ("np.float32(1.5) + k", np.float32(1.5) + km, Kb + 1.5), ("3 * k", 3 * km, 3 * Kb), ("k * 3", km * 3, 3 * Kb),
+                           ("sum([k,k], 1)", sum([km, km], 1), 2 * Kb + 1), ("sum([k,k], 0.5)", sum([km, km], 0.5), 2 * Kb + 0.5),
+                           ("0 + k", 0 + km, Kb), ("0.0 + k", 0.0 + km, Kb)]:
         n_eval += 1
         ok, dv = close(np.asarray(kk(jnp.asarray(X1), jnp.asarray(X2))), want, 1e-12)
         if not ok:
@@ -181,7 +186,8 @@ def run(chk):
     # mixing: never a quasiseparable kernel
     kq = qs.Matern32(jnp.asarray(1.0))
     for name, f in [("qs + dense", lambda: kq + km), ("dense + qs", lambda: km + kq), ("qs * dense", lambda: kq * km), ("dense * qs", lambda: km * kq),
-                    ("qs + 1.0", lambda: kq + 1.0), ("1.0 + qs", lambda: 1.0 + kq), ("qs * vector", lambda: kq * jnp.ones(2)), ("vector * qs", lambda: jnp.ones(2) * kq)]:
+                    ("qs + 1.0", lambda: kq + 1.0), ("1.0 + qs", lambda: 1.0 + kq), ("qs * vector", lambda: kq * jnp.ones(2)), ("vector * qs", lambda: jnp.ones(2) * kq),
+                    ("2 + qs", lambda: 2 + kq), ("qs + 2", lambda: kq + 2), ("np.int64(2) + qs", lambda: np.int64(2) + kq), ("sum([qs, qs], 1)", lambda: sum([kq, kq], 1))]:
         n_eval += 1
         try:
             r = f()
@@ -190,7 +196,12 @@ def run(chk):
             else:
                 got = np.asarray(r(jnp.asarray(X1), jnp.asarray(X2)))
                 Kq = np.asarray(kq(jnp.asarray(X1), jnp.asarray(X2)))
-                want = Kq + Kb if "+" in name else Kq * Kb
+                if "dense" in name:
+                    want = Kq + Kb if "+" in name else Kq * Kb
+                elif name.startswith("sum("):
+                    want = 2 * Kq + 1
+                else:
+                    want = Kq + (1.0 if "1.0" in name else 2.0)
                 ok, dv = close(got, want, 1e-12)
                 if not ok:
                     oracle_bad.append(dict(what=f"mixing {name} yields a general kernel with the wrong value"))
